@@ -92,11 +92,18 @@ Proof. vm_compute. repeat split; reflexivity. Qed.
 Definition err_kids : list node :=
   [NText (str " "); NElem ns_stream_error (str "host-unknown") [] [];
    NElem ns_stream_error (str "text") [mkattr ns_xml (str "lang") (str "en")] [NText (str "no such host")]].
-Example ex_defined : forallb defined_child err_kids = true.
-Proof. reflexivity. Qed.
 Example ex_stream_error :
   expect parse_ex false false info_zero
     (TStart ns_stream (str "error") [] :: flat_map flatten err_kids ++ [TEnd ns_stream (str "error")])
+  = (EStream (str "host-unknown"), info_zero, []).
+Proof. vm_compute. reflexivity. Qed.
+
+(* ... and with an application-specific condition after the defined one *)
+Example ex_stream_error_app :
+  expect parse_ex true true info_zero
+    (TStart ns_stream (str "error") [] ::
+     flat_map flatten (err_kids ++ [NElem (str "urn:example:app") (str "too-many") [] [NElem (str "urn:example:app") (str "n") [] []]])
+     ++ [TEnd ns_stream (str "error")])
   = (EStream (str "host-unknown"), info_zero, []).
 Proof. vm_compute. reflexivity. Qed.
 
